@@ -45,6 +45,9 @@ def cases(tier, seed):
             if meth == "predict_proba" and combo[0] != "logreg":
                 continue
             yield {"kind": "stacking", "models": combo, "method": meth, "L": L}
+    # fit parameters: every subset of {sample_weight, two other fit keywords} must reach the wrapped model as a direct fit passes them
+    for wrapper in ("learner", "stacking", "pipeline"):
+        yield {"kind": "fitparams", "wrapper": wrapper, "L": 0}
     for name, (_f, methods, _p) in _models().items():
         for meth in methods + [None]:
             for copy in (True, False):
@@ -55,6 +58,75 @@ def cases(tier, seed):
 def _cb(X):
     import numpy
     return numpy.asarray(X)[:, 0] * 2.0 + 1.0
+
+
+def _fitparams(case):
+    import numpy
+    from sklearn.base import BaseEstimator, RegressorMixin
+    from sklearn.pipeline import Pipeline
+    import mlinsights.sklapi as S
+
+    class RecFit(BaseEstimator, RegressorMixin):
+        def fit(self, X, y=None, sample_weight=None, offset=0.0, tag=None):
+            self.rec_ = {"X": numpy.array(X, copy=True), "y": None if y is None else numpy.array(y, copy=True),
+                         "sample_weight": None if sample_weight is None else numpy.array(sample_weight, copy=True),
+                         "offset": offset, "tag": tag}
+            w = numpy.ones(len(X)) if sample_weight is None else numpy.asarray(sample_weight, dtype=float)
+            self.mean_ = float((w * numpy.asarray(y, dtype=float)).sum() / w.sum()) + offset + (0.5 if tag else 0.0)
+            return self
+
+        def predict(self, X):
+            return numpy.full(numpy.asarray(X).shape[0], self.mean_)
+
+    viol = []
+    X = numpy.arange(10, dtype=numpy.float64).reshape(5, 2)
+    y = numpy.array([1.0, 2.0, 4.0, 8.0, 16.0])
+    menu = {"sample_weight": numpy.array([1.0, 2.0, 1.0, 3.0, 1.0]), "offset": 10.0, "tag": "t"}
+    cnt = 0
+    import itertools as it
+    for r in range(0, 4):
+        for keys in it.combinations(sorted(menu), r):
+            kw = {k: menu[k] for k in keys}
+            direct = RecFit().fit(X, y, **kw)
+            cnt += 1
+            if case["wrapper"] == "learner":
+                w = S.SkBaseTransformLearner(RecFit(), "predict")
+                inner = lambda: [w.model]
+                call = lambda: w.fit(X, y, **kw)
+            elif case["wrapper"] == "stacking":
+                w = S.SkBaseTransformStacking([RecFit(), RecFit()], "predict")
+                inner = lambda: [m.model if hasattr(m, "model") else m for m in w.models]
+                call = lambda: w.fit(X, y, **kw)
+            else:
+                w = Pipeline([("learner", S.SkBaseTransformLearner(RecFit(), "predict")), ("final", RecFit())])
+                inner = lambda: [w.steps[0][1].model]
+                call = lambda: w.fit(X, y, **{"learner__" + k: v for k, v in kw.items()})
+            cond = "fit keywords=%s" % (",".join(keys) or "none")
+            try:
+                call()
+                out = numpy.asarray((w.steps[0][1] if case["wrapper"] == "pipeline" else w).transform(X))
+            except Exception as e:
+                viol.append({"sig": "SkBaseTransform%s|fit with keywords raises %s|%s" % (case["wrapper"], type(e).__name__, cond), "msg": str(e)[:200]})
+                continue
+            for m in inner():
+                rec = getattr(m, "rec_", None)
+                same = rec is not None and all(
+                    (rec[k] is None and direct.rec_[k] is None) or (rec[k] is not None and direct.rec_[k] is not None and numpy.array_equal(numpy.asarray(rec[k]), numpy.asarray(direct.rec_[k])))
+                    if isinstance(direct.rec_[k], numpy.ndarray) or rec[k] is None or direct.rec_[k] is None else rec[k] == direct.rec_[k]
+                    for k in direct.rec_)
+                if not same:
+                    viol.append({"sig": "SkBaseTransform%s|wrapped model not trained as a direct fit would|%s" % (case["wrapper"], cond),
+                                 "msg": "wrapped model received %r, a direct fit receives %r" % (
+                                     None if rec is None else {k: v for k, v in rec.items() if k not in ("X", "y")}, {k: v for k, v in direct.rec_.items() if k not in ("X", "y")})})
+                    break
+            if not numpy.allclose(out, direct.predict(X).reshape(-1, 1).repeat(out.shape[1], axis=1)):
+                viol.append({"sig": "SkBaseTransform%s|transform != model.method|%s" % (case["wrapper"], cond), "msg": "%r vs %r" % (out[:2].tolist(), direct.predict(X)[:2].tolist())})
+    seen, uniq = set(), []
+    for v in viol:
+        if v["sig"] not in seen:
+            seen.add(v["sig"])
+            uniq.append(v)
+    return {"viol": uniq, "nontrivial": True, "states": cnt, "transitions": cnt * 2, "outcome": ("fitparams", case["wrapper"])}
 
 
 def _as2d(r):
@@ -73,6 +145,8 @@ def run_case(case):
     from mlinsights.mlmodel import TransferTransformer
 
     warnings.simplefilter("ignore")
+    if case["kind"] == "fitparams":
+        return _fitparams(case)
     viol = []
     sigs = set()
     M = _models()
